@@ -8,9 +8,11 @@ import (
 	"github.com/glebziz/fs_db/internal/model"
 	"github.com/glebziz/fs_db/internal/model/core"
 	"github.com/glebziz/fs_db/internal/model/sequence"
+	"github.com/glebziz/fs_db/internal/verifhook"
 )
 
 func (u *UseCase) UpdateTx(ctx context.Context, oldTxId, newTxId string, filter model.FileFilter) (deleteFiles []model.File, err error) { //nolint:funlen,cyclop,lll // TODO fix
+	verifhook.Point("utx.start")
 	tx := u.txStore.Delete(oldTxId)
 	if tx == nil {
 		return nil, nil
@@ -64,6 +66,7 @@ func (u *UseCase) UpdateTx(ctx context.Context, oldTxId, newTxId string, filter 
 		}
 	}
 	newTx.RUnlock()
+	verifhook.Point("utx.betweenAB")
 	if err != nil {
 		return
 	}
@@ -81,6 +84,7 @@ func (u *UseCase) UpdateTx(ctx context.Context, oldTxId, newTxId string, filter 
 
 	err = u.fileRepo.RunTransaction(ctx, func(ctx context.Context) error {
 		for i := range files {
+			verifhook.Point("utx.seqB")
 			files[i].Seq = sequence.Next()
 			err = u.fileRepo.Set(ctx, files[i])
 			if err != nil {
